@@ -219,8 +219,9 @@ let take_side () : string =
   let st = !w_st in
   let t = String.concat "," (List.map string_of_z st.ticks) in
   let d = int_of_nat st.maxdepth in
-  w_st := { st with ticks = []; depth = O; maxdepth = O };
-  Printf.sprintf " t=[%s] d=%d" t d
+  let o = hex_of_str st.out in
+  w_st := { st with ticks = []; depth = O; maxdepth = O; out = [] };
+  Printf.sprintf " t=[%s] d=%d o=%s" t d o
 
 let get_inst (i : int) : instance =
   match Hashtbl.find_opt insts i with Some x -> x | None -> failwith "no such instance"
@@ -350,6 +351,19 @@ let handle (line : string) : string =
       (match r with
        | Ok fa -> Hashtbl.replace insts i (register_factory (get_inst i) name fa); "ok"
        | other -> show_res (fun _ -> "") other)
+  | ["EXPAND"; i; kw; h] ->
+      let inst = get_inst (int_of_string i) in
+      let kw = str_of_string (hex_decode kw) in
+      (match env_get !w_st inst.i_env kw with
+       | Some (VTransformer t) ->
+           (match read_text (str_of_string (hex_decode h)) with
+            | Ok (DCons (_, rest, l) :: _) ->
+                (match rest with
+                 | DNil _ | DCons _ -> show_res show_datum (transform_use t (set_dloc rest l))
+                 | _ -> "(bad-use)")
+            | Ok _ -> "(bad-use)"
+            | other -> show_res (fun _ -> "") other)
+       | _ -> "(no-transformer)")
   | ["PRINTF"; b] ->
       "(disp " ^ hex_of_str (print_f32 (f32_of_bits (z_of_int (int_of_string ("0x" ^ b))))) ^ ")"
   | _ -> failwith ("bad line " ^ line)
